@@ -62,6 +62,8 @@ TAG_INL = ["{% tag %}", "{% tag a=1 b=\"two words\" %}", "{{ var }}", "{{ a.b | 
            "{% tag \"中文abc\" %}", "<!-- 汉字note2 -->", "{{ 变量name }}",
            "{% field placeholder=\"" + "Type a really long answer here please " * 14 + "and then stop...\" it's=\"x\" %}",
            # a tag body may contain the first character of its own closing delimiter
+           # what is inside a tag is not Markdown: dunder names, underscores and stars that would pair as emphasis
+           "{{ __version__ }}", "{% if obj.__class__ == x %}", "{# _note_ to self #}", "{{ a*b + c*d }}", "{% set t = _(\"Hello\") + _x_ %}",
            "{% if n % 10 == 0 and s == \"Loading...please wait\" %}", "{# issue #12: later...maybe it's #}", "{{ {\"a\": \"wait...what\"}|tojson }}"]
 ESCAPES = ["\\*", "\\_", "\\#", "\\[x\\]", "\\>", "a\\|b", "&amp;", "&lt;", "&#35;", "&copy;", "3\\)", "\\-", "\\+"]
 # an escaped ordered-list marker: not in documents with tag lines (listed finding *-escaped-number-in-tag-paragraph: the
